@@ -621,6 +621,164 @@ def gen_conditions(rng, count, kinds):
             yield dict(kind=kind, L=L, tbl=tbl, ops=ops, spec=True, stratum="conditions")
 
 
+# ----------------------------------------------------------------------------- the Enforcer under management histories
+# The e* strata above reach the role managers through add/remove_grouping_policy on an enforcer without a store.
+# Here the assignments "currently in force" are whatever a general management history leaves in the enforcer's
+# grouping policy: single, batch and FILTERED removals on g and on a second role definition g2, delete_user/
+# delete_role/..., reloads of a store that was edited behind the enforcer's back (rows gained and lost, a role
+# definition losing ALL its rows), reloads that are REFUSED (a malformed grouping row behind new ones; a failing
+# adapter), build_role_links(), a replaced role manager.  After every step: g()/g2() in the matcher (enforce),
+# has_link on the role manager in force, get_roles_for_user/get_users_for_role(_in_domain) against bounded
+# reachability / the direct assignments over the grouping rules get_grouping_policy reports at that moment.
+from .. import mgmt                                                            # noqa: E402
+from .. import core as _core                                                   # noqa: E402
+
+MG_W = dict(p_add=2, p_add_many=1, p_remove=1, p_remove_many=0.5, p_remove_filtered=0.5, p_update=0.5, p_update_many=0,
+            p_update_filtered=0, g_add=7, g_add_many=3, g_remove=5, g_remove_many=2, g_remove_filtered=3, rbac=4,
+            clear=0, load=1.5, save=0.5, build=1, flags=0, query=3, probe=0, rm_swap=1)
+MG_KINDS = ("rbac", "dom", "rbac_res")
+MG_QUERIES = (50, 55, 56, 57, 58, 59)
+_MGMT_ORACLE = []
+
+
+def mgmt_oracle():
+    if not _MGMT_ORACLE:
+        path, log = _core.build_oracle("Mgmt")
+        _MGMT_ORACLE.append(_core.Oracle(path) if path and not log else None)
+    return _MGMT_ORACLE[0]
+
+
+def mg_probe(kind, uni):
+    ops = mgmt.probe_ops(kind, uni)
+    for d in (uni.doms if kind.dom else [None]):
+        for a in uni.subs:
+            for b in uni.subs:
+                ops.append((59, 1, a, b, [d] if kind.dom else []))
+    if kind.g2:
+        ops += [(59, 2, a, b, []) for a in uni.objs for b in uni.objs]
+    return ops
+
+
+def mg_spec(kind, rows, lf, ops, obs, impl):
+    L = ENFORCER_L
+    for i, (op, o) in enumerate(zip(ops, obs)):
+        c, res = op[0], o[0]
+        if c not in MG_QUERIES or res[0] != 0:
+            continue
+        v, p, g, g2 = res[1], o[3], o[4], o[5]
+        if any(len(r) != mgmt.g_arity(kind, 1) for r in g) or any(len(r) != 2 for r in g2):
+            continue                                    # not generated: rules of another arity than declared
+
+        def e1(d):
+            return [(r[0], r[1]) for r in g if not kind.dom or r[2] == d]
+        e2 = [(r[0], r[1]) for r in g2]
+        if c == 59:
+            pt, a, b, doms = op[1], op[2], op[3], op[4]
+            edges = e2 if pt == 2 else e1(doms[0] if doms else 0)
+            if bool(v) != reach(edges, a, b, L - 1):
+                return [(i, "has_link on the enforcer's role manager differs from bounded reachability over the assignments in force")]
+        elif c == 50:
+            req = op[1]
+            if len(req) != kind.r_arity or kind.eft or kind.eff != 0:
+                continue
+            d = req[1] if kind.dom else 0
+            want = False
+            for r in p:
+                if len(r) != kind.p_arity or r[kind.i_act] != req[-1] or (kind.dom and r[kind.i_dom] != d):
+                    continue
+                if not (reach(e2, req[-2], r[kind.i_obj], L - 1) if kind.g2 else req[-2] == r[kind.i_obj]):
+                    continue
+                if reach(e1(d), req[0], r[kind.i_sub], L - 1):
+                    want = True
+                    break
+            if bool(v) != want:
+                return [(i, "g() in the matcher (enforce) differs from bounded reachability over the assignments in force")]
+        elif c in (55, 57):
+            d = op[2] if c == 57 else 0
+            if sorted(v) != sorted(r for (u, r) in e1(d) if u == op[1]):
+                return [(i, "get_roles_for_user is not exactly the direct assignments in force")]
+        elif c in (56, 58):
+            d = op[2] if c == 58 else 0
+            if sorted(v) != sorted(u for (u, r) in e1(d) if r == op[1]):
+                return [(i, "get_users_for_role is not exactly the direct assignments in force")]
+    return []
+
+
+def _mg_spec_variant(model_compared):
+    def sc(kind, rows, lf, ops, obs, impl):
+        return mg_spec(kind, rows, lf, ops, obs, impl)
+    sc.case_extra = dict(layout="mgmt", model_compared=model_compared)
+    return sc
+
+
+def mg_store_step(rng, kind, uni, gen, n_rows):
+    """the store is edited behind the enforcer's back (1..3 edits), then reloaded; w.p. 0.35 a malformed grouping row
+    is among the edits: the reload is refused, the row is deleted again and the reload repeated, so that every step
+    ends with memory = store.  Probes after every reload, accepted or refused."""
+    probe = mg_probe(kind, uni)
+    ops = []
+    pts = [0, 1, 1, 1] + ([2, 2] if kind.g2 else [])
+    for _ in range(rng.randint(1, 3)):
+        pt = rng.choice(pts)
+        x = rng.random()
+        if x < 0.55:
+            ops.append((40, pt, gen.rule(pt), rng.randint(0, n_rows + 6)))
+        elif x < 0.85:
+            ops.append((41, pt, gen.rule(pt)))
+        else:
+            ops.append((42, rng.choice([1, 1, 2]) if kind.g2 else 1))
+    x = rng.random()
+    if x < 0.35:
+        pt = 2 if (kind.g2 and rng.random() < 0.3) else 1
+        full = gen.rule(pt)
+        k = rng.randrange(len(full))
+        bad = full[:k] + full[k + 1:] if len(full) > 2 else full[:1]
+        ops.append((40, pt, bad, rng.randint(0, n_rows + 6)))
+        ops += [(31,)] + probe + [(41, pt, bad), (31,)] + probe
+    elif x < 0.45:
+        ops += [(32, rng.randint(0, n_rows + 3))] + probe + [(31,)] + probe
+    else:
+        ops += [(31,)] + probe
+    return ops
+
+
+def mg_cases(rng, kind, n, store):
+    uni = mgmt.Universe(kind)
+    for _ in range(n):
+        gen = mgmt.Gen(rng, kind, MG_W)
+        rows = gen.rows(rng.randint(0, 8))
+        probe = mg_probe(kind, uni)
+        ops = list(probe) if rng.random() < 0.5 else []
+        for _ in range(rng.randint(2, 9)):
+            if store and rng.random() < 0.3:
+                ops += mg_store_step(rng, kind, uni, gen, len(rows))
+            else:
+                ops += [o for o in gen.op() if o[0] < 50 or o[0] in MG_QUERIES]
+                if rng.random() < 0.35:
+                    ops += probe
+        ops += probe
+        yield (rows, True, mgmt.drop_prefix_aliases(kind, rows, ops))
+
+
+def run_mgmt_histories(chk, n, strata):
+    rng = chk.rng
+    own = chk.oracle
+    try:
+        for kn in MG_KINDS:
+            kind = mgmt.KINDS[kn]
+            chk.oracle = mgmt_oracle()
+            cases = list(mg_cases(rng, kind, n, False))
+            mgmt.run_cases(chk, kind, cases, _mg_spec_variant(True), label=f"enforcer-history-{kn}",
+                           compare_model=chk.oracle is not None)
+            strata[f"enforcer-history-{kn}"] = len(cases)
+            chk.oracle = None
+            cases = list(mg_cases(rng, kind, n, True))
+            mgmt.run_cases(chk, kind, cases, _mg_spec_variant(False), label=f"enforcer-history-store-{kn}", compare_model=False)
+            strata[f"enforcer-history-store-{kn}"] = len(cases)
+    finally:
+        chk.oracle = own
+
+
 # ----------------------------------------------------------------------------- driver
 def digest(case):
     return hashlib.blake2b(repr((case["kind"], case["L"], case["tbl"], case["ops"])).encode(), digest_size=8).digest()
@@ -715,6 +873,8 @@ def run(chk, tier):
                 buf = []
         process(chk, buf, state)
 
+    # G: the Enforcer under management histories (first: cheap, and a failing input here spares the escalation)
+    run_mgmt_histories(chk, 600 if thorough else 60, state["strata"])
     # A: exhaustive small scopes first (minimal counterexamples for free)
     feed(gen_exhaustive(rng, 3, ["rm", "dm", "crm"], lambda m: [1, 2, 3, 10]))
     feed(gen_chains(rng, ["rm", "dm", "crm", "cdm", "erm", "edm"]))
@@ -751,6 +911,9 @@ def replay(chk):
     if "ops" not in c:
         print("replay file names a broken theorem/correspondence, not an input:", json.dumps(rec.get("broken"))[:800])
         sys.exit(1)
+    if c.get("layout") == "mgmt":
+        chk.oracle = mgmt_oracle() if c.get("model_compared") else None
+        return mgmt.replay_case(chk, mg_spec)
     c.setdefault("tbl", [])
     c.setdefault("spec", True)
     obs = run_impl(c)
@@ -784,7 +947,14 @@ def main():
         "the SET of assignments in force / the direct assignments) and with the extracted model.  Histories with "
         "repeated adds, max_hierarchy_level 0 on the plain managers and clear() on conditional managers are run for "
         "the model tie only (outside the property's quantifier).  Non-trivial: at least one assignment and one "
-        "has_link query between two different names; distinct by (manager, bound, condition table, call sequence).")
+        "has_link query between two different names; distinct by (manager, bound, condition table, call sequence).  "
+        "Enforcer-history strata (shared management harness, RBAC / domain / resource-role models with a store): random "
+        "management histories - single, batch and filtered grouping calls on g and g2, RBAC-API deletions, reloads of a "
+        "store edited out of band (rows gained/lost, a role definition losing all rows), refused reloads (malformed "
+        "grouping row, failing adapter), build_role_links, a replaced role manager - with enforce over all requests, "
+        "has_link over all pairs and the role queries after each step, each answer compared with bounded reachability / "
+        "the direct assignments over the grouping rules reported at that moment (and with the Mgmt model where the "
+        "history stays inside it).")
     chk.assumptions = [
         "\"up to the configured maximum depth\" is read as the code's own countdown: RoleManager/DomainManager follow "
         "paths of k < max_hierarchy_level links (default 10: nine hops yes, ten no), the conditional managers k <= "
